@@ -13,7 +13,8 @@ RA == << R("out", 1, "f"), R("out", 1, "g"), R("out", 2, "f"), R("out", 2, "g"),
          R("text", 0, <<"h", "s", "NL">>), R("text", 3, <<"t", "NL">>), R("dupout", 1, 5), R("app", 3, "f"), R("rw", 3, "g") >>
 NR == Len(RA)
 ExecA == << <<R("out", 3, "f")>>, <<R("dupout", 3, 1)>>, <<R("out", 5, "g"), R("dupout", 1, 5)>>, <<R("rw", 4, "g")>>, <<R("dupout", 2, 1)>>, <<R("app", 3, "f"), R("close", 3, "")>>, <<R("in", 0, "f")>>, <<R("out", 1, "g"), R("dupout", 2, 1)>> >>
-H(k, p, q, m) == ((k * p + q) % 1000003) % m
+\* (TLC's integers are 32-bit: the program index is split so that no product overflows for indices up to 10^5)
+H(k, p, q, m) == (((k % 4096) * p + (k \div 4096) * ((p * 7) % 100003) + q) % 1000003) % m
 Pick(k, i) == RA[H(k, 7 + 2 * i * i + 11 * i, 3 * i + 1, NR) + 1]
 \* a redirection list of length 0..3 for slot s of program k
 RList(k, s) == LET n == H(k, 101 + 7 * s, s, 8) IN        \* lengths 0,1,1,2,2,2,3,3
